@@ -4,12 +4,21 @@ package handler
 // conservation clause: every request the shedder admitted reports Pass or Fail
 // exactly once (also when the wrapped handler panics), and a rejected request
 // never reaches the wrapped handler and never reports. No time dependence: no
-// bubble. The shedder is a harness stub with a generated admit/reject schedule.
+// bubble. The shedder is a harness stub with a generated admit/reject schedule,
+// or (Real) a counting wrapper around a real load.NewAdaptiveShedder whose
+// in-flight counter is read back through reflection: it must be 0 after every
+// completed request. The SHAPE of each request is generated too (method,
+// protocol version, path, body framing and any header a middleware could
+// plausibly special-case: Upgrade/Connection, Accept: text/event-stream,
+// Content-Encoding, Expect, priority and X-... headers); the oracle does not
+// depend on it: every admitted request reports exactly once.
 
 import (
 	"fmt"
 	"net/http"
 	"net/http/httptest"
+	"reflect"
+	"strings"
 	"testing"
 
 	"github.com/gotid/god/lib/load"
@@ -24,36 +33,149 @@ var c09Metrics = stat.NewMetrics("c09-verif")
 func init() { logx.Disable() }
 
 type c09hReq struct {
-	Admit bool   `json:"a"`
-	Beh   string `json:"b"` // 200 | 503 | 500 | write | none | panic
+	Admit  bool        `json:"a"`
+	Beh    string      `json:"b"` // 200 | 503 | 500 | write | none | panic
+	Method string      `json:"m,omitempty"`
+	Proto  string      `json:"pr,omitempty"` // 1.0 | 1.1 | 2
+	Path   string      `json:"p,omitempty"`
+	Body   string      `json:"bd,omitempty"` // none | len | chunked
+	Hdr    [][2]string `json:"h,omitempty"`
 }
 
 type c09hCase struct {
+	Real bool      `json:"real,omitempty"` // real adaptive shedder behind the counting wrapper
 	Reqs []c09hReq `json:"reqs"`
 }
 
-type c09hPromise struct{ pass, fail int }
+// headers (name, values) a middleware could plausibly special-case
+var c09hHeaderPool = [][]string{
+	{"Upgrade", "websocket", "WebSocket", "WEBSOCKET", "h2c", "websocket, h2c", ""},
+	{"Connection", "Upgrade", "upgrade", "keep-alive", "close", "keep-alive, Upgrade"},
+	{"Sec-WebSocket-Key", "dGhlIHNhbXBsZSBub25jZQ=="},
+	{"Sec-WebSocket-Version", "13"},
+	{"Accept", "text/event-stream", "*/*", "application/json"},
+	{"Content-Type", "application/json", "application/grpc", "multipart/form-data; boundary=x", "text/event-stream"},
+	{"Content-Encoding", "gzip", "identity"},
+	{"Accept-Encoding", "gzip"},
+	{"Expect", "100-continue"},
+	{"Te", "trailers"},
+	{"Range", "bytes=0-1"},
+	{"Cache-Control", "no-cache"},
+	{"Priority", "u=0", "u=7, i"},
+	{"X-Priority", "high", "low"},
+	{"X-Forwarded-For", "10.0.0.1"},
+	{"X-Real-Ip", "10.0.0.2"},
+	{"X-Requested-With", "XMLHttpRequest"},
+	{"X-Content-Security", "key=abc; secret=def; signature=ghi"},
+	{"Authorization", "Bearer x"},
+	{"X-Health-Check", "1"},
+	{"X-Debug", "1"},
+	{"Traceparent", "00-4bf92f3577b34da6a3ce929d0e0e4736-00f067aa0ba902b7-01"},
+	{"Grpc-Timeout", "1S"},
+}
 
-func (p *c09hPromise) Pass() { p.pass++ }
-func (p *c09hPromise) Fail() { p.fail++ }
+type c09hPromise struct {
+	pass, fail int
+	real       load.Promise
+}
+
+func (p *c09hPromise) Pass() {
+	p.pass++
+	if p.real != nil {
+		p.real.Pass()
+	}
+}
+
+func (p *c09hPromise) Fail() {
+	p.fail++
+	if p.real != nil {
+		p.real.Fail()
+	}
+}
 
 type c09hShedder struct {
-	admit bool
-	last  *c09hPromise
-	calls int
+	admit    bool
+	real     load.Shedder
+	last     *c09hPromise
+	admitted bool
+	calls    int
 }
 
 func (s *c09hShedder) Allow() (load.Promise, error) {
 	s.calls++
+	s.admitted = false
+	if s.real != nil {
+		p, err := s.real.Allow()
+		if err != nil {
+			return nil, err
+		}
+		s.admitted = true
+		s.last = &c09hPromise{real: p}
+		return s.last, nil
+	}
 	if !s.admit {
 		return nil, load.ErrServiceOverloaded
 	}
+	s.admitted = true
 	s.last = &c09hPromise{}
 	return s.last, nil
 }
 
+// c09hFlying reads the unexported in-flight counter of a real adaptive shedder.
+func c09hFlying(s load.Shedder) (int64, bool) {
+	rv := reflect.ValueOf(s)
+	if rv.Kind() != reflect.Ptr || rv.Elem().Kind() != reflect.Struct {
+		return 0, false
+	}
+	f := rv.Elem().FieldByName("flying")
+	if !f.IsValid() || f.Kind() != reflect.Int64 {
+		return 0, false
+	}
+	return f.Int(), true
+}
+
+func c09hRequest(rq c09hReq) *http.Request {
+	method := rq.Method
+	if method == "" {
+		method = http.MethodGet
+	}
+	path := rq.Path
+	if path == "" {
+		path = "/c09"
+	}
+	var req *http.Request
+	switch rq.Body {
+	case "len":
+		req = httptest.NewRequest(method, "http://localhost"+path, strings.NewReader("{\"a\":1}"))
+	case "chunked":
+		req = httptest.NewRequest(method, "http://localhost"+path, struct{ *strings.Reader }{strings.NewReader("{\"a\":1}")})
+		req.ContentLength = -1
+		req.TransferEncoding = []string{"chunked"}
+	default:
+		req = httptest.NewRequest(method, "http://localhost"+path, nil)
+	}
+	switch rq.Proto {
+	case "1.0":
+		req.Proto, req.ProtoMajor, req.ProtoMinor = "HTTP/1.0", 1, 0
+	case "2":
+		req.Proto, req.ProtoMajor, req.ProtoMinor = "HTTP/2.0", 2, 0
+	}
+	for _, h := range rq.Hdr {
+		req.Header.Add(h[0], h[1])
+	}
+	return req
+}
+
 func c09hInterp(c c09hCase) (v kit.Verdict) {
 	sh := &c09hShedder{}
+	if c.Real {
+		sh.real = load.NewAdaptiveShedder()
+		if _, ok := c09hFlying(sh.real); !ok {
+			v.Excluded = true // counter not readable (renamed field / shedding disabled): nothing to close the loop with
+			return v
+		}
+		v.Classes = append(v.Classes, "real-shedder")
+	}
 	nextCalls := 0
 	beh := ""
 	next := http.HandlerFunc(func(w http.ResponseWriter, r *http.Request) {
@@ -77,7 +199,7 @@ func c09hInterp(c c09hCase) (v kit.Verdict) {
 		sh.admit, sh.last, sh.calls = rq.Admit, nil, 0
 		nextCalls, beh = 0, rq.Beh
 		rec := httptest.NewRecorder()
-		req := httptest.NewRequest(http.MethodGet, "http://localhost/c09", nil)
+		req := c09hRequest(rq)
 		panicked := func() (p bool) {
 			defer func() {
 				if r := recover(); r != nil {
@@ -91,7 +213,7 @@ func c09hInterp(c c09hCase) (v kit.Verdict) {
 		if sh.calls != 1 {
 			return v.Failf("%s: Allow called %d times", what, sh.calls)
 		}
-		if !rq.Admit {
+		if !sh.admitted {
 			rejected++
 			if nextCalls != 0 {
 				return v.Failf("%s: rejected by the shedder but the wrapped handler ran", what)
@@ -111,22 +233,52 @@ func c09hInterp(c c09hCase) (v kit.Verdict) {
 		if n := sh.last.pass + sh.last.fail; n != 1 {
 			return v.Failf("%s: admitted request reported %d times (pass %d, fail %d): the shedder's in-flight count cannot return to zero", what, n, sh.last.pass, sh.last.fail)
 		}
+		if sh.real != nil {
+			if f, _ := c09hFlying(sh.real); f != 0 {
+				return v.Failf("%s: the real adaptive shedder counts %d requests in flight after the only admitted request has completed", what, f)
+			}
+		}
 		v.Classes = append(v.Classes, "beh-"+rq.Beh)
+		for _, h := range rq.Hdr {
+			if strings.EqualFold(h[0], "Upgrade") {
+				v.Classes = append(v.Classes, "hdr-upgrade="+h[1])
+			}
+		}
+		if rq.Body != "" && rq.Body != "none" {
+			v.Classes = append(v.Classes, "body-"+rq.Body)
+		}
 	}
-	v.NonTrivial = rejected > 0 && admitted > 0
+	v.NonTrivial = rejected > 0 && admitted > 0 || c.Real && admitted > 1
 	return v
 }
 
+func c09hGenReq(rt *rapid.T) c09hReq {
+	rq := c09hReq{
+		Admit:  rapid.IntRange(0, 3).Draw(rt, "a") > 0,
+		Beh:    rapid.SampledFrom([]string{"200", "503", "500", "write", "none", "panic"}).Draw(rt, "b"),
+		Method: rapid.SampledFrom([]string{"GET", "GET", "POST", "PUT", "DELETE", "HEAD", "OPTIONS", "PATCH", "CONNECT", "TRACE"}).Draw(rt, "m"),
+		Proto:  rapid.SampledFrom([]string{"1.1", "1.1", "1.0", "2"}).Draw(rt, "pr"),
+		Path:   rapid.SampledFrom([]string{"/c09", "/ws", "/healthz", "/metrics", "/c09?x=1", "/"}).Draw(rt, "p"),
+		Body:   rapid.SampledFrom([]string{"none", "none", "len", "chunked"}).Draw(rt, "bd"),
+	}
+	nh := rapid.IntRange(0, 4).Draw(rt, "nh")
+	for i := 0; i < nh; i++ {
+		h := rapid.SampledFrom(c09hHeaderPool).Draw(rt, "h")
+		if rapid.IntRange(0, 3).Draw(rt, "ws") == 0 {
+			h = c09hHeaderPool[0] // Upgrade: the header existing middlewares of this package already look at
+		}
+		rq.Hdr = append(rq.Hdr, [2]string{h[0], rapid.SampledFrom(h[1:]).Draw(rt, "hv")})
+	}
+	return rq
+}
+
 func TestVerif_C09_shedding_handler(t *testing.T) {
-	kit.Run(t, "C09", "handler-reports-once", kit.Opts{Quick: 300, Thorough: 4800},
+	kit.Run(t, "C09", "handler-reports-once", kit.Opts{Quick: 1500, Thorough: 48000},
 		func(rt *rapid.T) c09hCase {
-			var c c09hCase
+			c := c09hCase{Real: rapid.IntRange(0, 3).Draw(rt, "real") == 0}
 			n := rapid.IntRange(1, 12).Draw(rt, "n")
 			for i := 0; i < n; i++ {
-				c.Reqs = append(c.Reqs, c09hReq{
-					Admit: rapid.IntRange(0, 3).Draw(rt, "a") > 0,
-					Beh:   rapid.SampledFrom([]string{"200", "503", "500", "write", "none", "panic"}).Draw(rt, "b"),
-				})
+				c.Reqs = append(c.Reqs, c09hGenReq(rt))
 			}
 			return c
 		}, c09hInterp)
